@@ -540,12 +540,25 @@ package commitlog
 //@   call (*keyOffset).set requires [latest-offset-recorded] arg1 == offset
 
 // message set header: offset(8) timestamp(8) leader epoch(8) size(4), big endian
-//@ func (messageSet).Offset serves C08, C01
+//@ func (messageSet).Offset serves C08, C01, C14
+//@   requires [C14:a-whole-header-is-there] len(ms) >= 28
+//@   safety C14
 //@   modifies nothing
 //@   ensures len(ms) >= 28 ==> result == int64(be64(ms, 0))
-//@ func (messageSet).LeaderEpoch serves C08, C01
+//@ func (messageSet).LeaderEpoch serves C08, C01, C14
+//@   requires [C14:a-whole-header-is-there] len(ms) >= 28
+//@   safety C14
 //@   modifies nothing
 //@   ensures len(ms) >= 28 ==> result == be64(ms, 16)
+//@ func (messageSet).Timestamp serves C14
+//@   requires [C14:a-whole-header-is-there] len(ms) >= 28
+//@   safety C14
+//@   modifies nothing
+//@ func (messageSet).Size serves C14
+//@   requires [C14:a-whole-header-is-there] len(ms) >= 28
+//@   safety C14
+//@   modifies nothing
+//@   ensures len(ms) >= 28 ==> result == int32(be32(ms, 24))
 // a scanned message set is the stored header followed by a non-empty message (assumed: what the segment file holds)
 //@ assume func (*segmentScanner).Scan
 //@   returns (ms, e, err)
@@ -563,16 +576,25 @@ package commitlog
 //@   requires s != nil
 //@   ensures err == nil ==> c != nil && c.BaseOffset == old(s.BaseOffset)
 // entriesForMessageSet: one index entry per message, the first one for the set's own offset at the given position
-//@ func entriesForMessageSet serves C08, C01, C02
-//@   ensures [one-per-message] len(ms) > 28 ==> len(result) >= 1
-//@   ensures [nonnil] forall j int :: 0 <= j && j < len(result) ==> result[j] != nil
-//@   ensures [first-entry] len(ms) > 28 ==> result[0].Offset == int64(be64(old(ms), 0)) && result[0].Position == basePos && result[0].LeaderEpoch == be64(old(ms), 16)
+//@ globalinv ErrMalformedMessageSet serves C14, C08, C01, C02: ErrMalformedMessageSet != nil
+// (C14: whatever bytes a replication response carries, walking them as a message set does not crash, and a set whose
+//  first message does not fit the bytes that follow its header is refused)
+//@ func entriesForMessageSet serves C08, C01, C02, C14
+//@   returns (result, err)
+//@   safety C14
+//@   loop 1 invariant [C14:walk] n >= 0
+//@   ensures [C14:a-message-that-does-not-fit-is-refused] err == nil && len(ms) > 28 ==> int32(be32(old(ms), 24)) >= 0 && 28 + int(int32(be32(old(ms), 24))) <= len(ms)
+//@   ensures [C14:refused-with-the-sentinel] err != nil ==> err == ErrMalformedMessageSet
+//@   ensures [one-per-message] err == nil && len(ms) > 28 ==> len(result) >= 1
+//@   ensures [nonnil] err == nil ==> (forall j int :: 0 <= j && j < len(result) ==> result[j] != nil)
+//@   ensures [first-entry] err == nil && len(ms) > 28 ==> result[0].Offset == int64(be64(old(ms), 0)) && result[0].Position == basePos && result[0].LeaderEpoch == be64(old(ms), 16)
 //@   ensures [log-untouched] forall x *segment :: x.lastOffset == old(x.lastOffset) && x.BaseOffset == old(x.BaseOffset) && x.position == old(x.position) && x.firstOffset == old(x.firstOffset)
 //@   loop 1 invariant fresh(entries) && (forall j int :: 0 <= j && j < len(entries) ==> entries[j] != nil && allocated(entries[j]))
 //@   loop 1 invariant len(old(ms)) > 28 && (len(entries) == 0 ==> ms == old(ms) && n == 0)
 //@   loop 1 invariant len(entries) >= 1 ==> entries[0].Offset == int64(be64(old(ms), 0))
 //@   loop 1 invariant len(entries) >= 1 ==> entries[0].Position == basePos
 //@   loop 1 invariant len(entries) >= 1 ==> entries[0].LeaderEpoch == be64(old(ms), 16)
+//@   loop 1 invariant len(entries) >= 1 ==> int32(be32(old(ms), 24)) >= 0 && 28 + int(int32(be32(old(ms), 24))) <= len(old(ms))
 //@   loop 1 invariant forall x *segment :: x.lastOffset == old(x.lastOffset) && x.BaseOffset == old(x.BaseOffset) && x.position == old(x.position) && x.firstOffset == old(x.firstOffset)
 
 // cleanSegment: in every iteration a message that the property says must survive (no key, latest for its key,
